@@ -6,13 +6,14 @@ Import ListNotations.
 Local Open Scope N_scope.
 
 (* for x >= 0x80 { buf[i] = byte(x) | 0x80; x >>= 7; i++ }; buf[i] = byte(x)
+   written arithmetically: byte(x)|0x80 = x mod 128 + 128 and x >> 7 = x / 128.
    None = more bytes needed than [fuel] (the buffer would overflow; Go panics). *)
 Fixpoint uvarint_fuel (fuel : nat) (x : N) : option bytes :=
   match fuel with
   | O => None
   | S f =>
       if x <? 128 then Some [byte_of_N_trunc x]
-      else option_map (cons (byte_of_N_trunc (N.lor x 128))) (uvarint_fuel f (N.shiftr x 7))
+      else option_map (cons (byte_of_N_trunc (x mod 128 + 128))) (uvarint_fuel f (x / 128))
   end.
 
 (* with a buffer of binary.MaxVarintLen64 bytes: defined exactly for x < 2^70 (every uint64) *)
